@@ -197,6 +197,8 @@ def run_operator_case(case, ctx):
     kind = case["op"]
     a = G.build(case["a"])
     b = G.build(case["b"]) if case.get("b") is not None else None
+    if case.get("same"):
+        b = a
     facts = {"op": kind, "form": case["form"]}
     pairs = []
     if case["form"] == "binary":
@@ -259,11 +261,27 @@ def run_operators(spec, ctx):
     rng = g.rng
     for i in range(spec["n"]):
         form = rng.choice(["binary", "binary", "unary", "power", "division", "reduce", "reduce",
-                           "accumulate"])
+                           "accumulate", "binary_same", "binary_same"])
         shape = g.shape(2)
         kind = rng.choice(["int", "float"])
         case = {"form": form}
-        if form == "binary":
+        if form == "binary_same":
+            # the same object as both operands; non-finite coefficients allowed
+            case["form"] = "binary"
+            case["op"] = rng.choice(["equal", "not_equal", "less", "greater_equal", "add", "subtract",
+                                     "multiply"])
+            spec = g.poly(shape=shape, kind="float")
+            if rng.random() < 0.6 and spec["coefs"]:
+                special = rng.choice([float("nan"), float("inf"), float("-inf")])
+                def poke(data):
+                    if isinstance(data, list):
+                        return [poke(data[0])] + data[1:] if data else data
+                    return special
+                spec["coefs"][0] = poke(spec["coefs"][0])
+            case["a"] = spec
+            case["b"] = None
+            case["same"] = True
+        elif form == "binary":
             name = rng.choice(BINOPS)[0]
             gen = cg if name in ("floor_divide",) else g
             if name == "matmul":
